@@ -128,6 +128,7 @@ Definition hb_clip_stmt : Prop :=
     let r' := set_heartbeat_all k r i iv off in
     let t := snd (millis64 r) in
     rn r' = rn r /\ length (rx_dev r') = length (rx_dev r) /\ r_sync r' = r_sync r /\ r_slots r' = r_slots r /\ r_q r' = r_q r /\
+    snd (millis64 r') = t /\
     (forall j, 0 <= j < Z.of_nat (length (rx_dev r)) ->
        let x := get_devx r j in
        let x' := get_devx r' j in
@@ -139,33 +140,32 @@ Definition hb_clip_stmt : Prop :=
           | None => x_hb x' = hb_at (x_hb x) ss_disabled                           (* disabled; period and offset kept *)
           | Some p =>
             1000 <= p <= 655320 /\
-            if hb_changed iv off x
+            (* recomputed when a value changes - and when the scheduler was disabled (interval 0 keeps period and offset) *)
+            if hb_changed iv off x || (ss_next (x_hb x) =? ss_disabled)
             then x_hb x' = ss_update_next t (r_sync r) {| ss_next := ss_next (x_hb x); ss_offset := hb_resolve_offset off (ss_offset (x_hb x)); ss_period := p |}
             else x_hb x' = x_hb x
           end)) /\
     (r_devinfo_changed r' = r_devinfo_changed r ||
        existsb (fun j => hb_changed iv off (get_devx r j)) (map (fun n => i + Z.of_nat n) (seq 0 k))).
 
-(* 5b. FALSE of the model and of the C++ (finding `reenable-stays-off`, see tools/p_C12.py): one would expect that a call with a
-   non-zero interval leaves the device's heartbeat running, in particular after it had been switched off with interval 0.  But
-   Disable() keeps period and offset, so a later call with the same values is "no change" and the scheduler stays disabled. *)
+(* 5b. (repaired finding `reenable-stays-off`) a call with a non-zero interval leaves the device's heartbeat running - in particular
+   after it had been switched off with interval 0 and is given the stored interval and offset again: the schedule restarts on the
+   grid, at the least grid point after now *)
 Definition hb_reenable_stmt : Prop :=
   forall r i iv off, 0 <= i < Z.of_nat (length (rx_dev r)) -> 0 <= r_sync r < TB -> 0 <= snd (millis64 r) < TB -> 0 <= off < 2^32 ->
     0 <= ss_offset (x_hb (get_devx r i)) < 2^32 ->
     hb_resolve_period iv (ss_period (x_hb (get_devx r i))) <> None ->
-    ss_next (x_hb (get_devx (set_heartbeat_all 1 r i iv off) i)) <> ss_disabled.
-(* the witness: a one-device node; heartbeat 60 s / 10 s; switched off; set to 60 s / 10 s again *)
+    let h := x_hb (get_devx r i) in
+    let h' := x_hb (get_devx (set_heartbeat_all 1 r i iv off) i) in
+    (ss_next h <> ss_disabled -> ss_next h' <> ss_disabled) /\
+    (ss_next h = ss_disabled ->
+       ss_next h' <> ss_disabled /\ snd (millis64 r) < ss_next h' /\ on_grid (r_sync r) (ss_offset h') (ss_period h') (ss_next h') /\
+       (forall g, on_grid (r_sync r) (ss_offset h') (ss_period h') g -> snd (millis64 r) < g -> ss_next h' <= g) /\
+       Some (ss_period h') = hb_resolve_period iv (ss_period h) /\ ss_offset h' = hb_resolve_offset off (ss_offset h)).
+(* the former witness: a one-device node; heartbeat 60 s / 10 s; switched off; set to 60 s / 10 s again (Example in Props) *)
 Definition hb_reenable_witness (cfg:rcfg) : rnode :=
   let r0 := cold_node true 1 5000 40 5 no_lists [mk_dev true 22 1 []] [[]] cfg in
   set_heartbeat_all 1 (set_heartbeat_all 1 r0 0 60000 10000) 0 0 0.
-Definition hb_reenable_refuted_stmt : Prop :=
-  forall cfg, let r := hb_reenable_witness cfg in
-    0 <= 0 < Z.of_nat (length (rx_dev r)) /\ 0 <= r_sync r < TB /\ 0 <= snd (millis64 r) < TB /\
-    0 <= ss_offset (x_hb (get_devx r 0)) < 2^32 /\
-    hb_resolve_period 60000 (ss_period (x_hb (get_devx r 0))) = Some 60000 /\
-    ss_next (x_hb (get_devx (set_heartbeat_all 1 r 0 60000 10000) 0)) = ss_disabled /\
-    (* whereas any other value restarts it *)
-    ss_next (x_hb (get_devx (set_heartbeat_all 1 r 0 60000 10001) 0)) = 10001.
 
 (* ---------- 6. no heartbeat from nodes that are not active bus devices ---------- *)
 Section Silent.
@@ -191,3 +191,15 @@ Definition hb_inactive_silent_stmt : Prop :=
   (* ... and ParseMessages does not get as far as the heartbeat before the node is open *)
   (forall gf r, n_open (rn r) <> 3 ->
      let '(r1, ev0, opened) := open_step r in n_open (rn r1) <> 3 -> poll gf r = (r1, ev0) /\ ev0 = []).
+
+(* ---------- 7. Open() puts every heartbeat on the grid of the new SyncOffset ---------- *)
+(* (repaired finding `origin-hb-before-open`) whatever SetHeartbeatIntervalAndOffset had stored before Open() - in particular the default
+   values, which Open()'s own call does not regard as a change -, when Open() completes every device's heartbeat scheduler has the
+   default period and offset and stands at SyncOffset + offset, where SyncOffset is the clock value at that moment: the first
+   heartbeat comes 10 s after Open() *)
+Definition hb_open_resync_stmt : Prop :=
+  forall r r' ev, n_open (rn r) <> 3 -> open_step r = (r', ev, true) -> n_open (rn r') = 3 ->
+    length (rx_dev r) = length (n_devs (rn r)) -> 0 <= r_sync r' < TB ->
+    snd (millis64 r') = r_sync r' /\
+    forall j, 0 <= j < Z.of_nat (length (rx_dev r')) ->
+      x_hb (get_devx r' j) = {| ss_next := r_sync r' + 10000; ss_offset := 10000; ss_period := c_DefaultHeartbeatInterval |}.
